@@ -8,7 +8,7 @@ import (
 
 // C13: cancellation is prompt and each message is handed to exactly one receiver.
 
-//verif: replay=schedule unwind=8 preempt=3/5 cover=delivered bounds="TellHub: 2 receivers (own contexts), 1 deliverer (never-cancelled context), 1 canceller of receiver 0's context; interleavings at channel operations with at most 3 (quick) / 5 (thorough) preemptive context switches"
+// verif: replay=schedule unwind=8 preempt=3/5 cover=delivered bounds="TellHub: 2 receivers (own contexts), 1 deliverer (never-cancelled context), 1 canceller of receiver 0's context; interleavings at channel operations with at most 3 (quick) / 5 (thorough) preemptive context switches"
 func VH_C13_tellHubExactlyOnce() bool {
 	h := NewTellHub[vAddr]()
 	ctx0, ctx1, ctxD := vNewCtx(), vNewCtx(), vNewCtx()
@@ -46,7 +46,7 @@ func VH_C13_tellHubExactlyOnce() bool {
 	return true
 }
 
-//verif: replay=schedule unwind=8 cover=cancelled,delivered bounds="TellHub: 1 receiver, 1 deliverer whose context is cancelled concurrently: Deliver returns nil iff the callback ran"
+// verif: replay=schedule unwind=8 cover=cancelled,delivered bounds="TellHub: 1 receiver, 1 deliverer whose context is cancelled concurrently: Deliver returns nil iff the callback ran"
 func VH_C13_tellHubDeliverCancel() bool {
 	h := NewTellHub[vAddr]()
 	ctxR, ctxD := vNewCtx(), vNewCtx()
@@ -75,7 +75,7 @@ func VH_C13_tellHubDeliverCancel() bool {
 	return true
 }
 
-//verif: replay=schedule unwind=8 cover=served bounds="AskHub: 2 servers (own contexts), 1 asker, 1 canceller of server 0's context: exactly one handler runs and the asker gets its answer"
+// verif: replay=schedule unwind=8 cover=served bounds="AskHub: 2 servers (own contexts), 1 asker, 1 canceller of server 0's context: exactly one handler runs and the asker gets its answer"
 func VH_C13_askHubExactlyOnce() bool {
 	h := NewAskHub[vAddr]()
 	ctx0, ctx1, ctxD := vNewCtx(), vNewCtx(), vNewCtx()
@@ -104,7 +104,7 @@ func VH_C13_askHubExactlyOnce() bool {
 	return true
 }
 
-//verif: cover=full,drained bounds="Queue(cap 2, mtu 3): 0..3 symbolic messages of 0..4 bytes delivered, then received: FIFO, contents preserved although the sender's buffer is overwritten, oversize refused, slots conserved"
+// verif: cover=full,drained bounds="Queue(cap 2, mtu 3): 0..3 symbolic messages of 0..4 bytes delivered, then received: FIFO, contents preserved although the sender's buffer is overwritten, oversize refused, slots conserved"
 func VH_C13_queueFIFO() bool {
 	q := NewQueue[vAddr](2, 3)
 	k := vInt(0, 3)
